@@ -211,6 +211,8 @@ WITNESSES = [
     _lsp_witness('fun foo(): Int { 1 }\n\nlet s = "\U0001F600\u00e9\U0001F600"  let r = foo()\nfoo( )', "non-ASCII text before an identifier; no trailing newline"),
     _lsp_witness('// \u00e9\U0001F600\nfun foo(): Int { 1 }\n\n\nlet t = ("\u4e16\u754c", foo( ))\n\n', "multi-byte comment line, blank lines, trailing newlines"),
     _lsp_witness('fun foo(): Int { 1 }\nlet u = "\U0001F600"  foo( )\n', "single trailing newline"),
+    _lsp_witness('fun foo(): Int { 1 }\r\n\r\nlet s = "\u00e9\U0001F600"  let r = foo()\r\n  foo( )\r\nfoo( )', "CRLF line endings, positions on later lines"),
+    _lsp_witness('// \u4e16\r\nfun foo(): Int { 1 }\r\nlet t = ("\u754c", foo( ))\r\n', "CRLF with multi-byte characters before the line"),
 ]
 
 
